@@ -6,6 +6,7 @@ import Ktm.CoreCount
 import Ktm.Props.C02
 import Ktm.GridReach
 import Ktm.Live
+import Ktm.HyperbandSweep
 /-! # C11 — no livelock, no early stop: IDLE only while work is in flight; STOPPED is justified
 
 Model: `Core.create` over an algorithm record; the three algorithms that can answer IDLE or STOPPED on
@@ -228,5 +229,21 @@ def demo : Bool :=
   (match (create HB.alg o 2 3).2 with | .idle => true | _ => false) &&
   (match (create HB.alg o2 2 3).2 with | .idle => false | _ => true)
 example : demo = true := by decide
+
+/-- Hyperband's schedule is finite: along EVERY request list (any number of workers, any outcomes) the sweep counter stays below
+`hyperband_iterations` and the sweep position `iteration · numBrackets + (numBrackets − 1 − bracket)` stays below
+`iterations · numBrackets` — at most that many brackets are ever opened; with `round_size_bound` (C10: no round exceeds its size)
+this bounds the number of distinct trials of a Hyperband search by `iterations · Σ_b Σ_r size(b, r)` -/
+theorem hyperband_sweeps_bounded (cfg : HB.Cfg) (hnb : 0 < cfg.numBrackets) (hit : 0 < cfg.iterations) (ops : List Core.Op) :
+    HB.pos (Core.run HB.alg (HB.init cfg) ops).alg < cfg.iterations * cfg.numBrackets ∧
+    (Core.run HB.alg (HB.init cfg) ops).alg.currentIteration < cfg.iterations :=
+  HB.brackets_opened_bounded cfg hnb hit ops
+
+/-- the position moves forward by at most one bracket per request and never backwards (a new bracket is opened only when the stop
+test `bracket = 0 ∧ iteration + 1 = iterations` is false) -/
+theorem hyperband_position_moves_forward (cfg : HB.Cfg) (o : HB.O) (h : HB.SweepInv cfg o.alg) (op : Core.Op) :
+    HB.SweepInv cfg (Core.step HB.alg o op).1.alg ∧
+    (HB.pos (Core.step HB.alg o op).1.alg = HB.pos o.alg ∨ HB.pos (Core.step HB.alg o op).1.alg = HB.pos o.alg + 1) :=
+  HB.sweep_step cfg o h op
 
 end Props.C11
